@@ -15,6 +15,7 @@ CliEnv::CliEnv(const Plan &p) : clockrng(p.seed, 4242, p.run) {
 	fs.add_dir("/w/x/y", 0755, u, u, 1000000000);
 	root_ino = fs.add_dir(cwd, 0755, u, u, 1000000000);
 	fs.add_file("/w/a.lzh", 0644, 0, 0, p.geti("amtime", 946684800), Bytes());
+	if (!p.gets("arcname").empty()) fs.add_file(cwd + "/" + p.gets("arcname"), 0644, 0, 0, p.geti("amtime", 946684800), Bytes());
 	if (p.geti("canary", 0)) {
 		// a tree beside the extraction root that nothing may touch
 		canary_ino = fs.add_dir("/w/x/y/canary", 0777, u, u, 1100000000);
@@ -53,7 +54,7 @@ CliResult CliEnv::run(const Plan &p, const Bytes &arch) {
 	src.errat = p.geti("errat", -1);
 	src.mtime = p.geti("amtime", 946684800);
 	g_sim.archive_src = &src;
-	g_sim.archive_ino = fs.lookup("/w/a.lzh");
+	g_sim.archive_ino = p.gets("arcname").empty() ? fs.lookup("/w/a.lzh") : fs.lookup(p.gets("cwd", "/w/x/y/root") + "/" + p.gets("arcname"));
 	g_sim.out_buf = (int) p.geti("outbuf", 0);
 	g_sim.write_fail_at = p.geti("write_fail_at", -1);
 	g_sim.write_errno = (int) p.geti("write_errno", 28);
